@@ -12,7 +12,8 @@
    in-gap predecessors visited, visited heads are reported; the greedy reset clears
    the marks only after the whole walk has reached the heads. *)
 From Coq Require Import List NArith Bool Arith Lia Sorted.
-From YV Require Import Pat.Syntax Pat.MatchList Pat.MatchListProofs Pat.ChainRun Pat.ChainRunProofs.
+From YV Require Import Pat.Syntax Pat.Sem Pat.Matcher Pat.MatcherProofs Pat.Modifiers Pat.MatchList Pat.MatchListProofs
+                       Pat.Chain Pat.ChainProofs Pat.ChainRun Pat.ChainRunProofs.
 Import ListNotations.
 
 Definition stv (st : ustate) (k : nat) : list um := match u_get st k with Some v => v | None => [] end.
@@ -585,8 +586,7 @@ Section Complete.
   Section Events.
     Variable P : list event.               (* the events handled so far *)
     Variable ev : event.                   (* the next one *)
-    Hypothesis Hord : forall x, In x P -> eend x <= eend ev.
-    Hypothesis Hne : forall k s e, In (k, s, e) (P ++ [ev]) -> s < e /\ k <= n.
+    Hypothesis Hord : forall k s e, In (k, s, e) P -> s < eend ev.
 
     (* an old event is not reached through the new one *)
     Lemma left_old : forall k s e s0, left (P ++ [ev]) k s e s0 -> In (k, s, e) P -> left P k s e s0.
@@ -596,8 +596,8 @@ Section Complete.
       - destruct H as [_ [s' [e' [H2 H3]]]]. split; [exact Hin|]. exists s', e'. split; [|exact H3].
         apply IH; [exact H2|].
         pose proof (left_in _ _ _ _ _ H2) as Hi. apply in_app_iff in Hi. destruct Hi as [Hi|[Hi|[]]]; [exact Hi|].
-        exfalso. pose proof (Hord _ Hin) as Ho. rewrite Hi in Ho. unfold eend in Ho. cbn [snd] in Ho.
-        apply in_gap_le in H3. destruct (Hne (S k) s e) as [Hlt _]; [apply in_app_iff; left; exact Hin|]. lia.
+        exfalso. pose proof (Hord _ _ _ Hin) as Ho. rewrite Hi in Ho. unfold eend in Ho. cbn [snd] in Ho.
+        apply in_gap_le in H3. lia.
     Qed.
 
     Lemma event_dec : forall (a b : event), {a = b} + {a <> b}.
@@ -635,11 +635,10 @@ Section Complete.
   Lemma closed_push : forall st ml P k s e,
     closedD st ml -> k < n ->
     (forall k0 p, In p (map se (stv st k0)) -> In (k0, fst p, snd p) P) ->
-    (forall x, In x P -> eend x <= e) ->
-    (forall k0 s0 e0, In (k0, s0, e0) P -> s0 < e0) ->
+    (forall k0 s0 e0, In (k0, s0, e0) P -> s0 < e) ->
     closedD (u_push st k (mkUM s e 0)) ml.
   Proof.
-    intros st ml P k s e Hcd Hk HB Hord Hne k1 m1 Hm1 Hmk.
+    intros st ml P k s e Hcd Hk HB Hord k1 m1 Hm1 Hmk.
     assert (Hold : In m1 (stv st k1)).
     { rewrite stv_push in Hm1. destruct (Nat.eqb k k1) eqn:Ek; [|exact Hm1].
       apply Nat.eqb_eq in Ek. subst k1. apply in_app_iff in Hm1. destruct Hm1 as [H|[<-|[]]]; [exact H|].
@@ -650,7 +649,7 @@ Section Complete.
     apply Nat.eqb_eq in Ek. subst k1'. apply in_app_iff in Hm'. destruct Hm' as [H|[<-|[]]]; [apply Hc; assumption|].
     exfalso. cbn [um_e] in Hg. apply in_gap_le in Hg.
     assert (Hin : In (S k, um_s m1, um_e m1) P) by (apply (HB (S k) (se m1)); apply in_map; exact Hold).
-    pose proof (Hord _ Hin) as Ho. unfold eend in Ho. cbn [snd] in Ho. pose proof (Hne _ _ _ Hin). lia.
+    pose proof (Hord _ _ _ Hin) as Ho. lia.
   Qed.
 
   Lemma left_conn : forall P st ml s e s0, OI P st ml ->
@@ -671,15 +670,15 @@ Section Complete.
 
   Lemma oi_step : forall P k s e st ml,
     OI P st ml ->
-    (forall x, In x P -> eend x <= e) ->
-    (forall k0 s0 e0, In (k0, s0, e0) (P ++ [(k, s, e)]) -> s0 < e0 /\ k0 <= n) ->
+    (forall k0 s0 e0, In (k0, s0, e0) P -> s0 < e) ->
+    (forall k0 s0 e0, In (k0, s0, e0) (P ++ [(k, s, e)]) -> s0 <= e0 /\ k0 <= n) ->
     OI (P ++ [(k, s, e)]) (fst (handle_piece_match pieces k s e (st, ml))) (snd (handle_piece_match pieces k s e (st, ml))).
   Proof.
     intros P k s e st ml HOI Hord Hne.
     pose proof HOI as [Hso [Hlv [Hcd [HA [HB HE]]]]].
-    assert (Hord' : forall x, In x P -> eend x <= eend (k, s, e)) by exact Hord.
-    assert (Hke : s < e /\ k <= n) by (apply Hne; apply in_app_iff; right; left; reflexivity).
-    assert (HneP : forall k0 s0 e0, In (k0, s0, e0) P -> s0 < e0)
+    assert (Hord' : forall k0 s0 e0, In (k0, s0, e0) P -> s0 < eend (k, s, e)) by exact Hord.
+    assert (Hke : s <= e /\ k <= n) by (apply Hne; apply in_app_iff; right; left; reflexivity).
+    assert (HneP : forall k0 s0 e0, In (k0, s0, e0) P -> s0 <= e0)
       by (intros k0 s0 e0 H; apply (Hne k0 s0 e0); apply in_app_iff; left; exact H).
     (* the consequences shared by all cases *)
     assert (Hold : forall k1 s1 e1 s0, left (P ++ [(k, s, e)]) k1 s1 e1 s0 -> In (k1, s1, e1) P -> left P k1 s1 e1 s0)
@@ -690,12 +689,12 @@ Section Complete.
     assert (Hpred : forall k' s0, k = S k' -> left (P ++ [(k, s, e)]) k s e s0 -> ~ In (k, s, e) P ->
               within_valid_distance st k' s (gp k') = true /\
               exists s' e', left P k' s' e' s0 /\ in_gap (gp k') e' s = true).
-    { intros k' s0 -> Hl Hnin. destruct (left_new P _ Hord' Hne _ _ _ _ Hl Hnin) as [_ [s' [e' [Hl' Hg]]]].
+    { intros k' s0 -> Hl Hnin. destruct (left_new P _ Hord' _ _ _ _ Hl Hnin) as [_ [s' [e' [Hl' Hg]]]].
       split; [|exists s', e'; split; assumption].
       assert (Hk' : k' < n) by lia.
       pose proof (HA k' s' e' s0 Hk' Hl') as Hin.
       apply (wvd_of_in_gap st k' (gp k') s s' e' Hin); [|exact Hg].
-      pose proof (HB k' (s', e') Hin) as HinP. cbn [fst snd] in HinP. apply HneP in HinP. lia. }
+      pose proof (HB k' (s', e') Hin) as HinP. cbn [fst snd] in HinP. apply HneP in HinP. exact HinP. }
     destruct (piece_exists k (proj2 Hke)) as [p Ep].
     unfold handle_piece_match. rewrite Ep.
     (* a push of the new match at a level below n *)
@@ -705,7 +704,7 @@ Section Complete.
       { intros k1 m Hm. rewrite stv_push in Hm. destruct (Nat.eqb k k1) eqn:Ek; [|apply Hlv; exact Hm].
         apply Nat.eqb_eq in Ek. subst k1. apply in_app_iff in Hm. destruct Hm as [Hm|[<-|[]]]; [apply Hlv; exact Hm|].
         split; [exact Hk|left; reflexivity]. }
-      split; [apply (closed_push st ml P k s e Hcd Hk HB Hord HneP)|].
+      split; [apply (closed_push st ml P k s e Hcd Hk HB Hord)|].
       split.
       { intros k1 s1 e1 s0 Hk1 Hl. destruct (in_dec event_dec (k1, s1, e1) P) as [Hi|Hi].
         - apply stv_push_incl. apply (HA k1 s1 e1 s0 Hk1). apply Hold; assumption.
@@ -768,4 +767,237 @@ Section Complete.
         cbn [fst snd]. apply Hskip; [|discriminate].
         intros k'' s0 E Hl Hi. inversion E; subst k''. destruct (Hpred k' s0 eq_refl Hl Hi) as [Hw _]. congruence.
   Qed.
+
+  (* every event starts before the end of the events that come after it: true for
+     events in the order of their END offset and for events in the order of their START
+     offset (the two orders the search kernels produce), matches being non-empty *)
+  Definition ordered (evs : list event) : Prop :=
+    forall P ev R, evs = P ++ ev :: R -> forall k s e, In (k, s, e) P -> s < eend ev.
+
+  Lemma OI_nil : OI [] [] [].
+  Proof.
+    split; [apply sorted_nil|]. split; [intros k m []|]. split; [intros k m []|].
+    split; [intros k s e s0 _ H; apply left_in in H; destruct H|].
+    split; [intros k p []|]. intros s e s0 H. apply left_in in H. destruct H.
+  Qed.
+
+  Lemma oi_fold : forall rest P st ml evs, evs = P ++ rest -> ordered evs ->
+    (forall k s e, In (k, s, e) evs -> s <= e /\ k <= n) -> OI P st ml ->
+    let r := fold_left (fun sm ev => let '(id, s, e) := ev in handle_piece_match pieces id s e sm) rest (st, ml) in
+    OI evs (fst r) (snd r).
+  Proof.
+    induction rest as [|[[k s] e] rest IH]; intros P st ml evs E Hord Hev HOI; cbn [fold_left].
+    - rewrite app_nil_r in E. subst evs. exact HOI.
+    - assert (E' : evs = (P ++ [(k, s, e)]) ++ rest) by (rewrite <- app_assoc; exact E).
+      pose proof (oi_step P k s e st ml HOI) as Hstep.
+      destruct (handle_piece_match pieces k s e (st, ml)) as [st1 ml1] eqn:Eh. cbn [fst snd] in Hstep.
+      apply (IH (P ++ [(k, s, e)]) st1 ml1 evs E' Hord Hev). apply Hstep.
+      + intros k0 s0 e0 Hin. apply (Hord P (k, s, e) rest E k0 s0 e0 Hin).
+      + intros k0 s0 e0 Hin. apply Hev. rewrite E'. apply in_app_iff. left. exact Hin.
+  Qed.
+
+  (* THE THEOREM: every chain of events has its start reported *)
+  Theorem run_chain_complete_starts : forall evs,
+    ordered evs -> (forall k s e, In (k, s, e) evs -> s <= e /\ k <= n) ->
+    forall s e s0, left evs n s e s0 -> In (N.of_nat s0) (starts (run_chain pieces evs)).
+  Proof.
+    intros evs Hord Hev s e s0 Hl. unfold run_chain, run_chain_state.
+    pose proof (oi_fold evs [] [] [] evs eq_refl Hord Hev OI_nil) as H. cbv zeta in H.
+    destruct H as [_ [_ [_ [_ [_ HE]]]]]. apply (HE s e s0 Hl).
+  Qed.
 End Complete.
+
+(* ---- the chain of a split pattern, fed with every end of every piece ------------ *)
+Lemma Iter_any_len : forall nc d k i j, Iter (M nc d (RCls CAny)) k i j -> j = i + k.
+Proof.
+  intros nc d k i j H. induction H as [|k i m j Hp H IH]; [lia|]. inversion Hp; subst. lia.
+Qed.
+
+Lemma M_jump_inv : forall nc d g e s', M nc d (jump_of g) e s' -> in_gap (cgap_of g) e s' = true.
+Proof.
+  intros nc d [mn mx gr] e s' H. unfold jump_of in H. cbn [g_min g_max g_greedy] in H.
+  inversion H; subst. match goal with HI : Iter _ _ _ _ |- _ => apply Iter_any_len in HI end. subst s'.
+  unfold cgap_of. cbn [g_min g_max]. destruct mx as [m|]; cbn [in_gap le_opt] in *.
+  - apply andb_true_iff. split; apply Nat.leb_le; lia.
+  - apply Nat.leb_le. lia.
+Qed.
+
+Lemma M_min_len : forall nc d r i j, M nc d r i j -> i + min_len r <= j.
+Proof.
+  intros nc d. induction r as [|c|a IHa b IHb|a IHa b IHb|r IH mn mx g|a]; intros i j H; inversion H; subst; cbn [min_len].
+  - lia.
+  - lia.
+  - match goal with H1 : M nc d a _ _, H2 : M nc d b _ _ |- _ => apply IHa in H1; apply IHb in H2; lia end.
+  - match goal with H1 : M nc d a _ _ |- _ => apply IHa in H1; lia end.
+  - match goal with H1 : M nc d b _ _ |- _ => apply IHb in H1; lia end.
+  - match goal with HI : Iter _ _ _ _ |- _ =>
+      assert (Hk : i + k * min_len r <= j) by (clear -HI IH; induction HI as [|k i m j Hp HI IHI]; [lia|apply IH in Hp; lia]) end.
+    nia.
+  - lia.
+Qed.
+
+Lemma by_end_complete : forall n evs ev, In ev evs -> snd ev < n -> In ev (by_end n evs).
+Proof.
+  intros n evs ev Hin Hlt. unfold by_end. apply in_flat_map. exists (snd ev). split.
+  - apply in_seq. lia.
+  - apply filter_In. split; [exact Hin|apply Nat.eqb_refl].
+Qed.
+
+Lemma all_end_events_complete : forall nc rs d id r s e,
+  nth_error rs id = Some r -> M nc d r s e -> In (id, s, e) (all_end_events nc rs d).
+Proof.
+  intros nc rs d id r s e Hr Hm. pose proof (M_bounds _ _ _ _ _ Hm) as [H1 H2].
+  unfold all_end_events. apply by_end_complete; [|cbn [snd]; lia].
+  apply in_flat_map. exists id. split; [apply in_seq; split; [lia|]; cbn; apply nth_error_Some; congruence|].
+  rewrite Hr. apply in_flat_map. exists s. split; [apply in_seq; lia|].
+  apply in_map. apply ends_spec. exact Hm.
+Qed.
+
+Lemma by_end_ordered : forall n evs P ev R, by_end n evs = P ++ ev :: R -> forall x, In x P -> snd x <= snd ev.
+Proof.
+  intros n evs. unfold by_end.
+  assert (G : forall len a P ev R, flat_map (fun e => filter (fun ev0 : event => Nat.eqb (snd ev0) e) evs) (seq a len) = P ++ ev :: R ->
+              a <= snd ev /\ forall x, In x P -> snd x <= snd ev).
+  { induction len as [|len IH]; intros a P ev R E; cbn [seq flat_map] in E.
+    - destruct P; discriminate.
+    - set (fa := filter (fun ev0 : event => Nat.eqb (snd ev0) a) evs) in *.
+      assert (Hfa : forall y, In y fa -> snd y = a) by (intros y Hy; apply filter_In in Hy; destruct Hy as [_ Hy]; apply Nat.eqb_eq in Hy; exact Hy).
+      (* where does ev fall: in fa or in the rest *)
+      destruct (Nat.le_gt_cases (length fa) (length P)) as [Hle|Hgt].
+      + (* P = fa ++ P' *)
+        assert (Efa : fa = firstn (length fa) P /\ flat_map (fun e => filter (fun ev0 : event => Nat.eqb (snd ev0) e) evs) (seq (S a) len) = skipn (length fa) P ++ ev :: R).
+        { assert (E1 : firstn (length fa) (fa ++ flat_map (fun e => filter (fun ev0 : event => Nat.eqb (snd ev0) e) evs) (seq (S a) len)) = firstn (length fa) (P ++ ev :: R)) by (rewrite E; reflexivity).
+          assert (E2 : skipn (length fa) (fa ++ flat_map (fun e => filter (fun ev0 : event => Nat.eqb (snd ev0) e) evs) (seq (S a) len)) = skipn (length fa) (P ++ ev :: R)) by (rewrite E; reflexivity).
+          rewrite firstn_app, Nat.sub_diag, firstn_all, firstn_O, app_nil_r in E1.
+          rewrite skipn_app, Nat.sub_diag, skipn_all, skipn_O in E2. cbn [app] in E2.
+          rewrite firstn_app in E1. replace (length fa - length P) with 0 in E1 by lia. rewrite firstn_O, app_nil_r in E1.
+          rewrite skipn_app in E2. replace (length fa - length P) with 0 in E2 by lia. rewrite skipn_O in E2.
+          split; assumption. }
+        destruct Efa as [Ef Er]. destruct (IH _ _ _ _ Er) as [Ha Hx]. split; [lia|].
+        intros x Hin. rewrite <- (firstn_skipn (length fa) P) in Hin. apply in_app_iff in Hin. destruct Hin as [Hin|Hin].
+        * rewrite <- Ef in Hin. rewrite (Hfa _ Hin). lia.
+        * apply Hx. exact Hin.
+      + (* ev is in fa *)
+        assert (Hev : In ev fa /\ forall x, In x P -> In x fa).
+        { assert (E1 : firstn (length fa) (fa ++ flat_map (fun e => filter (fun ev0 : event => Nat.eqb (snd ev0) e) evs) (seq (S a) len)) = firstn (length fa) (P ++ ev :: R)) by (rewrite E; reflexivity).
+          rewrite firstn_app, Nat.sub_diag, firstn_all, firstn_O, app_nil_r in E1.
+          rewrite firstn_app in E1.
+          replace (length fa - length P) with (S (length fa - length P - 1)) in E1 by lia. cbn [firstn] in E1.
+          split.
+          - rewrite E1. apply in_app_iff. right. left. reflexivity.
+          - intros x Hin. rewrite E1. apply in_app_iff. left. rewrite firstn_all2 by lia. exact Hin. }
+        destruct Hev as [H1 H2]. rewrite (Hfa _ H1). split; [lia|]. intros x Hin. rewrite (Hfa _ (H2 _ Hin)). lia. }
+  intros P ev R E x Hin. apply (G n 0 P ev R E). exact Hin.
+Qed.
+
+Section AllEnds.
+  Variable nc greedy : bool.
+  Variable c : re * list (gap * re).
+  Variable d : bytes.
+  Hypothesis Htails : snd c <> [].
+  Hypothesis Hmin : forall r, In r (chain_res c) -> 1 <= min_len r.
+
+  Let n := length (snd c).
+  Let gp (i : nat) : cgap := match nth_error (snd c) i with Some g => cgap_of (fst g) | None => GUnbounded 0 end.
+  Let pieces := pieces_of_chain greedy c.
+  Let rs := chain_res c.
+  Let evs := all_end_events nc rs d.
+
+  Lemma n_pos : 1 <= n.
+  Proof. unfold n. destruct (snd c); [contradiction|cbn [length]; lia]. Qed.
+
+  Lemma ae_in : forall id s e, In (id, s, e) evs -> exists r, nth_error rs id = Some r /\ M nc d r s e.
+  Proof. intros id s e H. apply all_end_events_sound in H. exact H. Qed.
+
+  Lemma ae_props : forall k s e, In (k, s, e) evs -> s < e /\ k <= n.
+  Proof.
+    intros k s e H. destruct (ae_in _ _ _ H) as [r [Hr Hm]]. split.
+    - pose proof (M_min_len _ _ _ _ _ Hm). pose proof (Hmin r (nth_error_In _ _ Hr)). lia.
+    - assert (k < length rs) by (apply nth_error_Some; congruence).
+      unfold rs, chain_res in H0. cbn [length] in H0. rewrite map_length in H0. unfold n. lia.
+  Qed.
+
+  Lemma ae_ordered : ordered evs.
+  Proof.
+    intros P ev R E k s e Hin.
+    pose proof (by_end_ordered _ _ _ _ _ E (k, s, e) Hin) as Ho. cbn [snd] in Ho.
+    assert (Hi : In (k, s, e) evs) by (rewrite E; apply in_app_iff; left; exact Hin).
+    pose proof (ae_props _ _ _ Hi). unfold eend. lia.
+  Qed.
+
+  (* from a match of the rest of the chain after piece k to a chain of events *)
+  Lemma suffix_left : forall m k sk ek s0 te, m = n - k -> k <= n ->
+    left gp evs k sk ek s0 ->
+    M nc d (rcat (flat_map (fun g => [jump_of (fst g); snd g]) (skipn k (snd c)))) ek te ->
+    exists sn en, left gp evs n sn en s0.
+  Proof.
+    induction m as [|m IH]; intros k sk ek s0 te Em Hk Hl Hm.
+    - assert (k = n) by lia. subst k. exists sk, ek. exact Hl.
+    - assert (Hkn : k < n) by lia.
+      destruct (nth_error (snd c) k) as [[g r']|] eqn:Et; [|apply nth_error_None in Et; unfold n in Hkn; lia].
+      rewrite (skipn_nth _ _ _ _ Et) in Hm. cbn [flat_map fst snd app] in Hm.
+      apply M_rcat_cons in Hm. destruct Hm as [s' [Hj Hm]].
+      apply M_rcat_cons in Hm. destruct Hm as [e' [Hr Hm]].
+      apply (IH (S k) s' e' s0 te); [lia|lia| |exact Hm].
+      cbn [left]. split.
+      + apply (all_end_events_complete nc rs d (S k) r'); [|exact Hr].
+        unfold rs, chain_res. cbn [nth_error]. rewrite nth_error_map, Et. reflexivity.
+      + exists sk, ek. split; [exact Hl|]. unfold gp. rewrite Et. cbn [fst]. apply M_jump_inv with (nc := nc) (d := d). exact Hj.
+  Qed.
+
+  (* the bookkeeping fed with every end of every piece reports the start of every
+     occurrence of the chain *)
+  Theorem chain_complete_all_ends :
+    chain_complete_starts nc c d (scan_chain_all_ends nc greedy false c d).
+  Proof.
+    intros s te Hm. unfold join_chain in Hm. apply M_rcat_cons in Hm. destruct Hm as [e0 [Hh Hm]].
+    assert (Hl0 : left gp evs 0 s e0 s).
+    { cbn [left]. split; [|reflexivity]. apply (all_end_events_complete nc rs d 0 (fst c)); [reflexivity|exact Hh]. }
+    destruct (suffix_left (n - 0) 0 s e0 s te eq_refl ltac:(lia) Hl0 Hm) as [sn [en Hl]].
+    assert (Hin : In (N.of_nat s) (starts (run_chain pieces evs))).
+    { apply (run_chain_complete_starts pieces n gp greedy n_pos) with (s := sn) (e := en); try exact Hl.
+      - apply (proj1 (pieces_of_chain_shape greedy c)).
+      - intros p Hp. unfold pieces in Hp. rewrite pieces_of_chain_head in Hp. inversion Hp. reflexivity.
+      - intros i p Hp. unfold pieces in Hp. rewrite pieces_of_chain_tail in Hp. unfold gp.
+        destruct (nth_error (snd c) i); cbn [option_map] in Hp; [|discriminate]. inversion Hp. reflexivity.
+      - intros id p Hp. destruct id as [|i]; unfold pieces in Hp.
+        + rewrite pieces_of_chain_head in Hp. inversion Hp. cbn [cp_last]. pose proof n_pos. symmetry. apply Nat.eqb_neq. lia.
+        + rewrite pieces_of_chain_tail in Hp. destruct (nth_error (snd c) i); cbn [option_map] in Hp; [|discriminate].
+          inversion Hp. reflexivity.
+      - intros id p Hp. destruct id as [|i]; unfold pieces in Hp.
+        + rewrite pieces_of_chain_head in Hp. inversion Hp. reflexivity.
+        + rewrite pieces_of_chain_tail in Hp. destruct (nth_error (snd c) i); cbn [option_map] in Hp; [|discriminate].
+          inversion Hp. reflexivity.
+      - exact ae_ordered.
+      - intros k s1 e1 H. destruct (ae_props _ _ _ H). split; lia. }
+    unfold starts in Hin. apply in_map_iff in Hin. destruct Hin as [y [Hy Hiny]].
+    exists y. split; [|exact Hy].
+    unfold scan_chain_all_ends. replace (map (vre false) (chain_res c)) with (chain_res c) by (unfold vre; symmetry; apply map_id).
+    exact Hiny.
+  Qed.
+End AllEnds.
+
+(* the boolean order check evaluated on the real events in K stream (e) *)
+Lemma events_ordered_b_spec : forall evs, events_ordered_b evs = true -> ordered evs.
+Proof.
+  induction evs as [|x t IH]; intros H P ev R E k s e Hin.
+  - destruct P; discriminate.
+  - cbn [events_ordered_b] in H. apply andb_true_iff in H. destruct H as [H1 H2].
+    destruct P as [|x0 P']; [destruct Hin|]. cbn [app] in E. inversion E; subst x0 t.
+    destruct Hin as [Hx|Hin].
+    + subst x. rewrite forallb_forall in H1. specialize (H1 ev). cbn [fst snd] in H1.
+      apply Nat.ltb_lt. apply H1. apply in_app_iff. right. left. reflexivity.
+    + apply (IH H2 P' ev R eq_refl k s e Hin).
+Qed.
+
+(* the hypotheses of chain_complete_all_ends are satisfiable (the pattern of the
+   known finding: the all-ends model finds what the one-end model misses) *)
+Example all_ends_hypotheses_example :
+  let c := split_at_large_gaps missed_items in
+  snd c <> [] /\ (forall r, In r (chain_res c) -> 1 <= min_len r).
+Proof.
+  cbv zeta. split.
+  - vm_compute. discriminate.
+  - assert (E : forallb (fun r => Nat.leb 1 (min_len r)) (chain_res (split_at_large_gaps missed_items)) = true) by (vm_compute; reflexivity).
+    rewrite forallb_forall in E. intros r Hr. apply Nat.leb_le. apply E. exact Hr.
+Qed.
